@@ -30,7 +30,7 @@ import (
 
 type TickBatch struct {
 	Key    string `json:"key"`
-	Sizes  []int  `json:"sizes"`   // JSON lengths of the records in the batch
+	Sizes  []int  `json:"sizes"`    // JSON lengths of the records in the batch
 	CAgeMs int    `json:"c_age_ms"` // now - ctime
 	MAgeMs int    `json:"m_age_ms"` // now - mtime
 }
